@@ -70,6 +70,9 @@ class CommunicationType:
         if isinstance(val, bytes):
             val = struct.unpack('B', val)[0]
         val = int(val)
+        tools.validate_int(val, min=0, max=0xFF, name="communication type")
+        if val & 0x0C != 0:
+            raise ValueError('Bits 2 and 3 of the communication type are reserved and must be 0')
         subnet = (val & 0xF0) >> 4
         normal_msg = True if val & 1 > 0 else False
         network_management_msg = True if val & 2 > 0 else False
